@@ -50,6 +50,6 @@ for m in bank["mutants"]:
         shutil.rmtree(tmp, ignore_errors=True)
 for name, status, fired in results:
     print("%-44s %-18s %s" % (name, status, ("\n      ".join([""] + fired) if BENIGN else " ".join(fired))))
-missed = [r for r in results if r[1] not in ("caught", "silent") and not r[1].startswith("SKIPPED")]
+missed = [r for r in results if r[1] not in ("caught", "silent")]   # a stale pattern (SKIPPED) counts: fail closed
 print("%d mutants, %d %s, %d not" % (len(results), sum(1 for r in results if r[1] in ("caught", "silent")), "silent" if BENIGN else "caught", len(missed)))
 sys.exit(1 if missed else 0)
